@@ -984,6 +984,16 @@ class GroupBy:
         result_len = len(self.result_index)
 
         if transform:
+            if func_is_mean:
+                # per-group mean = sum / count, then broadcast like any other result
+                with np.errstate(invalid="ignore", divide="ignore"):
+                    result_columns = [
+                        mean_from_sum_count(
+                            pd.Series(np.append(total[:result_len], total[-1:])),
+                            pd.Series(np.append(count[:result_len], 0)),
+                        ).to_numpy()
+                        for total, count in zip(result_columns, counts)
+                    ]
             self._unify_group_key_chunks()
             result_columns = [result[self.group_ikey] for result in result_columns]
             if common_index is not None:
